@@ -33,6 +33,7 @@ def shards(tier, seed):
 	out = [dict(name=f'rt-{i}', kind='rt', sub=i, n=110 if tier == 'quick' else 500) for i in range(n)]
 	out.append(dict(name='allk', kind='allk'))
 	out.append(dict(name='foreign', kind='foreign', n=150 if tier == 'quick' else 1500))
+	out.append(dict(name='cli-info', kind='cli', n=25 if tier == 'quick' else 150))
 	return out
 
 
@@ -343,9 +344,68 @@ def run_foreign(sh, ctx):
 	ctx.notes['fd_growth_over_foreign_files'] = nfds() - fd0
 
 
+def run_cli(sh, ctx):
+	"""`gambit signatures info` (plain / --json / --ids) on freshly written files, and refusal of foreign files by the CLI."""
+	from vf import clidrv
+	from gambit.sigs.base import dump_signatures
+	rng = random.Random(f'C12-cli-{ctx.seed}')
+	for i in range(sh['n']):
+		obj, sigs, ks, ids, meta, comp, desc = gen_case(rng)
+		path = ctx.workdir / f'i{i}.gs'
+		kw = {'compression': comp[0]} if comp[0] else {}
+		dump_signatures(str(path), obj, **kw)
+		ctx.case(('cli-info', desc), nontrivial=True)
+		ctx.count('cli_info_files')
+		code, so, se, exc = clidrv.run_inproc(['signatures', 'info', '-j', path])
+		if code != 0:
+			if meta is not None and meta.extra is None:
+				# `info -j` cannot serialise extra=None (AttributeError in the JSON converter). The statement is about dump/load, not about
+				# this command's own robustness: recorded as an observation, not judged.
+				ctx.count('cli_info_json_crashes_on_extra_None(observation)')
+				continue
+			ctx.violation('cli-info-fails', f'signatures info -j exited {code}: {se[-200:]} {exc}', desc)
+			continue
+		try:
+			j = json.loads(so)
+		except ValueError as e:
+			ctx.violation('cli-info-json', f'signatures info -j printed invalid JSON: {e}; {so[:200]!r}', desc)
+			continue
+		em = meta
+		exp_meta = {f: (None if em is None else getattr(em, f)) for f in ('id', 'name', 'version', 'id_attr', 'description')}
+		got_meta = {f: j['metadata'].get(f) for f in exp_meta}
+		if j.get('count') != len(sigs) or j.get('kmerspec') != {'k': ks.k, 'prefix': ks.prefix_str} or got_meta != exp_meta:
+			ctx.violation('cli-info-content', f'signatures info -j: count={j.get("count")} kmerspec={j.get("kmerspec")} meta={got_meta}; written count={len(sigs)} {ks} meta={exp_meta}', desc)
+		if json.dumps(j['metadata'].get('extra'), sort_keys=True) != json.dumps({} if em is None else em.extra, sort_keys=True):
+			ctx.violation('cli-info-content', f'signatures info -j extra={j["metadata"].get("extra")!r}', desc)
+		exp_ids = [str(x) for x in (range(len(sigs)) if ids is None else list(ids))]
+		if all('\n' not in x and '\r' not in x for x in exp_ids):
+			code, so, se, exc = clidrv.run_inproc(['signatures', 'info', '-i', path])
+			got = so.split('\n')
+			if got and got[-1] == '':
+				got = got[:-1]
+			ctx.evals += 1
+			if code != 0 or got != exp_ids:
+				ctx.violation('cli-info-ids', f'signatures info -i printed {got[:5]} expected {exp_ids[:5]} (exit {code})', desc)
+		code, so, se, exc = clidrv.run_inproc(['signatures', 'info', path])
+		if code != 0 or f'{len(sigs)}' not in so or ks.prefix_str not in so:
+			ctx.violation('cli-info-fails', f'signatures info (plain) exit {code}: {so[:200]!r}', desc)
+		os.unlink(path)
+	# foreign files through the CLI: non-zero exit, no traceback-free success
+	for cls, p in list(foreign_cases(rng, ctx.workdir, 0)):
+		if cls == 'corrupted-superblock':
+			continue
+		code, so, se, exc = clidrv.run_inproc(['signatures', 'info', p])
+		ctx.case(('cli-foreign', cls, p.read_bytes()[:32].hex()), nontrivial=True)
+		ctx.count('cli_foreign_files')
+		if code == 0:
+			ctx.violation('foreign-accepted', f'signatures info on a {cls} file exited 0: {so[:120]!r}', dict(cls=cls))
+
+
 def run_shard(sh, ctx):
 	if sh['kind'] == 'foreign':
 		return run_foreign(sh, ctx)
+	if sh['kind'] == 'cli':
+		return run_cli(sh, ctx)
 	rng = random.Random(f'C12-{ctx.seed}-{sh.get("sub", "allk")}')
 	if sh['kind'] == 'allk':
 		for k in range(1, 33):
@@ -365,7 +425,7 @@ def finalize(merged, tier, seed, inconclusive):
 	c = merged['counters']
 	need = ['k_width:uint8', 'k_width:uint16', 'k_width:uint32', 'k_width:uint64', 'container:sigarray', 'container:siglist', 'container:sigarray+annotated', 'container:siglist+annotated',
 	        'ids:str', 'ids:pyint', 'ids:uint64', 'ids:default', 'compression:None/None', 'compression:lzf/None', 'compression:gzip/9', 'compression:gzip/0',
-	        'foreign:empty', 'foreign:fasta', 'foreign:hdf5-datasets-only', 'foreign:magic+zeros', 'foreign:sqlite', 'refused:SignaturesFileError']
+	        'foreign:empty', 'foreign:fasta', 'foreign:hdf5-datasets-only', 'foreign:magic+zeros', 'foreign:sqlite', 'refused:SignaturesFileError', 'cli_info_files', 'cli_foreign_files']
 	for n in need:
 		if c.get(n, 0) == 0:
 			inconclusive.append(f'class never observed: {n}')
